@@ -57,7 +57,22 @@ fn main() {
                 let s: Vec<String> = v.iter().map(|x| x.to_string()).collect();
                 writeln!(o, "{} {}", id, s.join(" ")).unwrap();
             }
-            Err(_) => writeln!(o, "{} PANIC", id).unwrap(),
+            Err(payload) => {
+                // arithmetic panics of debug builds (overflow, shift, division by zero) are
+                // reported separately: C20 forbids arithmetic that is only correct when it wraps
+                let msg = if let Some(s) = payload.downcast_ref::<&str>() {
+                    s.to_string()
+                } else if let Some(s) = payload.downcast_ref::<String>() {
+                    s.clone()
+                } else {
+                    String::new()
+                };
+                if msg.contains("attempt to") || msg.contains("overflow") {
+                    writeln!(o, "{} PANIC_ARITH", id).unwrap()
+                } else {
+                    writeln!(o, "{} PANIC", id).unwrap()
+                }
+            }
         }
         o.flush().unwrap();
     }
